@@ -1,12 +1,42 @@
 ---------------------------- MODULE MC_Pipeline ----------------------------
-(* Model-checking instance of Pipeline.tla: vector generation and the as-built prediction. *)
+(* Model-checking instance of Pipeline.tla: the vector sets (request grammar, configuration x history       *)
+(* neighbourhoods, seeded sample of the full product), vector generation and the as-built prediction.        *)
 EXTENDS Pipeline, Json
 
-\* one line per terminal state: (vector, transcription, allowed outcome classes, deciding stage)
+CONSTANTS NbK,       \* radius of the neighbourhoods: every vector that differs from a centre in at most NbK dimensions
+          SampleN    \* number of vectors drawn from the full product request x configuration x history
+
+\* ---- neighbourhoods -----------------------------------------------------------------------------------------------
+\* The full product of the 19 dimensions (7.2 * 10^10 combinations before normalisation, times 2 builds; the check
+\* computes the number from DIMS) is far too large to execute. Stratification: around each centre every combination of values in up to NbK dimensions, all
+\* other dimensions at the centre's value (NbK = 2: all pairs of classes; NbK = 3: all triples). The centres are the
+\* ordinary first request through the Client, the same as second request on the idle connection of the first, both
+\* of these over the real TCP transport on loopback, and a TLS request issued while the previous one is in flight.
+Centres == {Centre,
+            [Centre EXCEPT !.hist = "idle"],
+            [Centre EXCEPT !.net = "tcp", !.host = "v4"],
+            [Centre EXCEPT !.net = "tcp", !.host = "v4", !.hist = "idle"],
+            [Centre EXCEPT !.uri = "https", !.transport = "tls", !.hist = "inflight"]}
+DimVals == UNION {{<<d, a>> : a \in Dom[d]} : d \in Dims}
+Dev1(S) == {[c EXCEPT ![dv[1]] = dv[2]] : c \in S, dv \in DimVals}      \* includes S (a value may be the centre's)
+RECURSIVE Dev(_, _)
+Dev(k, S) == IF k = 0 THEN S ELSE Dev(k - 1, Dev1(S))
+NbVectors == {[Norm(x) EXCEPT !.da = b] : x \in Dev(NbK, Centres), b \in BOOLEAN}
+
+\* ---- sample of the full product ------------------------------------------------------------------------------------
+\* every dimension drawn independently and uniformly (TLC's RandomElement, reproducible under -seed), then normalised
+Sampled == {Norm([d \in Fields |-> IF d = "da" THEN RandomElement(BOOLEAN) ELSE RandomElement(Dom[d])]) : i \in 1..SampleN}
+
+MCInitVectors == {Ext(b) : b \in BaseVectors} \cup NbVectors \cup Sampled
+\* scenario vectors only (development, replay of a family)
+MCInitScenario == NbVectors \cup Sampled
+
+\* one line per terminal state: (vector, transcription, allowed outcome classes, deciding stage, re-use)
 Gen == Done => PrintT(<<"VEC", ToJson([v |-> v, asBuilt |-> asBuilt, exp |-> out])>>)
 
-\* the payload classes crossed onto every vector by the generator
+\* the payload classes crossed onto every vector by the generator, and the dimensions with their classes
 ASSUME PrintT(<<"PAYLOADS", ToJson(Payloads)>>)
+ASSUME PrintT(<<"DIMS", ToJson([dom |-> Dom, centre |-> Centre])>>)
 
 \* prediction from the as-built transcription (always TRUE: a report, one ABBAD line per panicking terminal state)
 AsBuiltReport == AB => (P_NoPanic(v, ModelObs) \/ PrintT(<<"ABBAD", ToJson([v |-> v, stage |-> out.stage])>>))
